@@ -335,6 +335,27 @@ def evaluate(ctx, histories, have_model, flags_expected, record=True):
     return lib, problems
 
 
+def eintr(ctx):
+    """a blocking read interrupted by SIGALRM: handled through the library it must restart (SA_RESTART),
+    handled by a plain handler without SA_RESTART it must fail with EINTR (sensitivity of the probe)"""
+    rc, out, _ = sh([common.bin_path('p_c05'), 'eintr'], timeout=60)
+    e = {}
+    for l in out.split('\n'):
+        p = l.split()
+        if len(p) == 5 and p[0] == 'E':
+            e[p[1]] = (int(p[2]), int(p[3]), int(p[4]))
+    ctx.evaluations += len(e)
+    ctl = e.get('ctl')
+    ctx.correspondence('EINTR probe is sensitive: a plain handler without SA_RESTART makes the blocked read fail with EINTR',
+                       ctl is not None and ctl[0] == -1 and ctl[1] == 4 and ctl[2] == 1, out[-300:])
+    lb = e.get('lib')
+    if lb is None:
+        ctx.correspondence('EINTR probe through the library ran', False, out[-300:])
+    elif not (lb[0] == 1 and lb[2] >= 1):
+        ctx.violation({'monitor': 'eintr'}, 'a blocking read interrupted by a signal handled through the library returned %d errno %d (action ran %d times): '
+                      'the system call was not restarted, SA_RESTART is not in effect' % lb, {'probe': 'p_c05 eintr', 'result': lb})
+
+
 def corpus_histories():
     out = []
     for f in sorted(glob.glob(os.path.join(common.ROOT, 'corpus', 'C05-*.json'))):
@@ -383,7 +404,7 @@ def run(ctx, only=None):
         histories = [(0, only)]
     else:
         rnd = random.Random(ctx.seed * 1000003 + 5)
-        n, maxlen = (60, 200) if ctx.tier == 'quick' else (700, 600)
+        n, maxlen = (150, 200) if ctx.tier == 'quick' else (5000, 600)
         hs = [gen_history(rnd, consts, ctx.tier, maxlen) for _ in range(n)]
         hs += [gen_history(rnd, consts, ctx.tier, 12) for _ in range(n // 3)]     # short ones: early steps of many shapes
         hs += corpus_histories()
@@ -429,23 +450,8 @@ def run(ctx, only=None):
         ctx.correspondence('extracted model run_c05 = signal-hook-registry on %d histories (return values, ids, what each delivery ran, dispositions + flags)' % len(histories),
                            not diffs, det)
 
-    # --- EINTR ---------------------------------------------------------------------------------
     if only is None:
-        rc, out, _ = sh([common.bin_path('p_c05'), 'eintr'], timeout=60)
-        e = {}
-        for l in out.split('\n'):
-            p = l.split()
-            if len(p) == 5 and p[0] == 'E':
-                e[p[1]] = (int(p[2]), int(p[3]), int(p[4]))
-        ctx.evaluations += len(e)
-        ctl_ok = e.get('ctl', (0, 0, 0))[0] == -1 and e.get('ctl')[1] == 4 and e.get('ctl')[2] == 1
-        ctx.correspondence('EINTR probe is sensitive: a plain handler without SA_RESTART makes the blocked read fail with EINTR', ctl_ok, out[-300:])
-        lb = e.get('lib')
-        if lb is None:
-            ctx.correspondence('EINTR probe through the library ran', False, out[-300:])
-        elif not (lb[0] == 1 and lb[2] >= 1):
-            ctx.violation({'monitor': 'eintr'}, 'a blocking read interrupted by a signal handled through the library returned %d errno %d (action ran %d times): '
-                          'the system call was not restarted, SA_RESTART is not in effect' % lb, {'probe': 'p_c05 eintr', 'result': lb})
+        eintr(ctx)
     pre0, it0 = parse_items(histories[0][1])
     ctx.samples = [{'history_ops': len(it0), 'signals': sorted(pre0), 'first_ops': it0[:8]}]
     ctx.coverage['rule'] = ('%d random histories (length <= %d ops, 2-%d signals out of %s, pre-installed dfl/ign/user handlers, ~15%% stale ids, forbidden and '
@@ -459,6 +465,13 @@ def run(ctx, only=None):
 def replay(ctx, path):
     case = json.load(open(path))
     h = case.get('case', {}).get('history')
+    if h is None and case.get('case', {}).get('probe') == 'p_c05 eintr':
+        if not ctx.harness(['p_c05']):
+            return 1
+        eintr(ctx)
+        for v in ctx.violations:
+            print('REPRODUCED:', v['what'])
+        return 1 if (ctx.violations or ctx.broken) else 0
     if h is None:
         print('replay file names no concrete input:', json.dumps(case.get('broken'), indent=1)[:3000])
         return 1
